@@ -13,11 +13,20 @@
     runs out of an explicit amount of fuel ([C09_evaluation_is_finite]); in the resulting Spec
     every recursion point is a reference to an entry of the reference table
     ([C09_recursion_points_resolve]); a program with an uncut cycle exhausts any fuel (witness).
-    Carried by the monitors (not proved): distinct instantiations get distinct components
-    (instantiation monitor, relocation test); the link between the graph of [cycles_check] and
-    [Strat.stratified] is the tie, not a theorem. *)
+    Distinct instantiations get distinct components: the key of the component a [rec]
+    expression creates carries the identifier of the scope on top of the evaluation stack; the
+    body of every application is evaluated under a scope whose identifier is larger than every
+    identifier issued before, so every recursion key created while the body runs is larger than
+    every scope identifier in use and every recursion key present when the body started
+    ([C09_body_keys_fresh], from the state invariant [C09_evaluation_step]); two applications of
+    one function therefore never share a recursion key (witness: two components for one rec
+    node). One instantiation is emitted once: the keys of the reference table of a program are
+    pairwise distinct ([C09_components_distinct]).
+    Not proved: the link between the graph of [cycles_check] and [Strat.stratified] is the tie,
+    not a theorem; component names are hashes of these keys in the code (sha256, distinct
+    inputs are assumed to give distinct names; the relocation monitor observes them). *)
 From Oal Require Import Cycles CyclesProofs.
-From Oal Require Eval Strat TermProofs ClosureProofs.
+From Oal Require Eval Strat TermProofs ClosureProofs FreshProofs.
 
 Theorem C09_cycles_check_spec :
   forall referential scc, scc_spec scc -> forall fuel ns g marks,
@@ -85,3 +94,29 @@ Print Assumptions C09_uncut_cycle_loops_refuted.
 
 Example C09_recursive_program_is_stratified : Strat.stratified ClosureProofs.ex_rec_P ClosureProofs.ex_rec_rs = true.
 Proof. exact TermProofs.ex_rec_stratified. Qed.
+
+(** distinct instantiations, distinct components *)
+Theorem C09_evaluation_step : forall lx P n s e a s' v,
+  FreshProofs.bounded s -> Eval.eval lx P n s e a = Eval.Ok (s', v) -> FreshProofs.step_ok s s'.
+Proof. exact FreshProofs.eval_step_ok. Qed.
+Print Assumptions C09_evaluation_step.
+
+Theorem C09_body_keys_fresh : forall lx P n s2 sc body a s3 r,
+  FreshProofs.bounded s2 -> Eval.eval lx P n (Eval.push_scope s2 sc) body a = Eval.Ok (s3, r) ->
+  forall m i k, In (Eval.KRec m i k) (FreshProofs.rkeys s3) -> ~ In (Eval.KRec m i k) (FreshProofs.rkeys s2) ->
+  (Eval.seq s2 < k)%N /\
+  (forall id sc', In (id, sc') (Eval.scopes s2) -> (id < k)%N) /\
+  (forall m' i' k', In (Eval.KRec m' i' k') (FreshProofs.rkeys s2) -> (k' < k)%N).
+Proof. exact FreshProofs.body_keys_fresh. Qed.
+Print Assumptions C09_body_keys_fresh.
+
+Theorem C09_components_distinct : forall lx P n rs rels table,
+  Eval.eval_program lx P n rs = Eval.Ok (rels, table) -> NoDup (map fst table).
+Proof. exact FreshProofs.program_components_distinct. Qed.
+Print Assumptions C09_components_distinct.
+
+Example C09_two_instantiations :
+  exists rels s1 s2,
+    Eval.eval_program false FreshProofs.ex_inst_P 50 FreshProofs.ex_inst_rs =
+    Eval.Ok (rels, [(Eval.KRec 0 9 1, s1); (Eval.KRec 0 9 3, s2)]) /\ s1 <> s2.
+Proof. exact FreshProofs.ex_two_instantiations. Qed.
